@@ -3,9 +3,9 @@
    ValidateWithStupidDetail produced are judged by the A layer of ChainBuilder.tla.
 
    Inputs (written by the harness / the generator, next to this module):
-     c07_universe.ndjson  one abstract certificate per line (harness/lib/pki.Cert)
-     c07_cases.ndjson     [certs, roots, inters : Seq(id), leaf : id, usages, dns, times, mode, drift]
-     c07_obs.ndjson       [case : line number in c07_cases, api : "verify" | "stupid", t,
+     FU  the universe as one JSON object: id -> abstract certificate (harness/lib/pki.Cert)
+     FC  cases            [certs, roots, inters : Seq(id), leaf : id, usages, dns, times, mode, drift]
+     FO  observations     [case : line number in c07_cases, api : "verify" | "stupid", t,
                            current, expired, never : Seq(Seq(id)), err : STRING, panic, trusted : BOOLEAN]
    Output (stdout), parsed by tools/props/C07.py:
      <<"REJECT", i, reason>>      observation i breaks ChainsOk / ErrOk (reason = first broken clause)
@@ -17,12 +17,12 @@ EXTENDS ChainBuilder, Json, FiniteSetsExt
 
 CONSTANTS FU, FC, FO     \* file names: universe, cases, observations
 
-U   == ndJsonDeserialize(FU)
-CS  == ndJsonDeserialize(FC)
-OBS == ndJsonDeserialize(FO)
-
-\* id -> certificate
-ById  == [id \in {U[k].id : k \in 1..Len(U)} |-> U[CHOOSE k \in 1..Len(U) : U[k].id = id]]
+\* The universe arrives as ONE JSON object {id: certificate, ...} (the driver re-formats the generator's /
+\* harness' one-certificate-per-line file): TLC reads an object as a record, i.e. a function from ids,
+\* with logarithmic lookup.  (Building that function in TLA+ from a sequence costs |U|^2 comparisons.)
+ById == ndJsonDeserialize(FU)[1]
+CS   == ndJsonDeserialize(FC)
+OBS  == ndJsonDeserialize(FO)
 \* a certificate Verify returned that is not part of the universe at all
 Bogus == MkCert("?", "?n", "?k", "?i", "?s")
 Resolve(id)     == IF id \in DOMAIN ById THEN ById[id] ELSE Bogus
